@@ -127,6 +127,28 @@ def run(ctx):
                     elif rr.returncode == 0 and st == 1: st = 0
                 if r.returncode != st or r.stdout != exp:
                     viol.append(dict(why='patterns %r handed over as %r: exit status %d / output %r, grep on the decompressed data gives %d / %r (sed fallback: %s)' % (pts, args, r.returncode, r.stdout[:200], st, exp[:200], bool(grepvar))))
+        # xzless: less builds the preprocessor command from LESSOPEN, escaping the characters xzless lists in LESSMETACHARS;
+        # the file shown must be exactly the named one and nothing in the name may run (with and without $SHELL, which changes
+        # how less runs the command)
+        import shutil as _sh
+        if _sh.which('less'):
+            ld = os.path.join(td, 'less'); os.mkdir(ld); lb = os.path.join(td, 'lessbin'); os.mkdir(lb)
+            open(os.path.join(lb, 'pwn'), 'w').write('#!/bin/sh\n: > "%s/CANARY"\necho INJECTED\n' % ld); os.chmod(os.path.join(lb, 'pwn'), 0o755)
+            lnames = [b'plain.xz', b'a\\b.xz', b'ab.xz', b'x\\;pwn', b'x\\\\;pwn', b'q;pwn', b'q&pwn&.xz', b'q$(pwn)`pwn`.xz', b'q\'"|pwn', b'sp ace\ttab.xz', b'star*?[x].xz', b'hash#%=~^.xz', b'(par)<lt>.xz', b'nl\nline.xz']
+            for j, nm in enumerate(lnames):
+                open(os.path.join(ld.encode(), nm), 'wb').write(lzma.compress(b'contents of file %d\n' % j))
+            for shell in (None, '/bin/sh'):
+                e3 = {k_: v_ for k_, v_ in env.items() if k_ not in ('LESSMETACHARS', 'LESSOPEN', 'LESSCLOSE', 'LESS', 'SHELL')}
+                e3['PATH'] = bdir + ':' + lb + ':' + e3.get('PATH', '/usr/bin:/bin')
+                if shell: e3['SHELL'] = shell
+                for j, nm in enumerate(lnames):
+                    try: r = subprocess.run([os.path.join(bdir.encode(), b'xzless'), b'--', nm], cwd=ld, capture_output=True, env=e3, stdin=subprocess.DEVNULL, timeout=30, start_new_session=True)
+                    except subprocess.TimeoutExpired: viol.append(dict(why='xzless %r did not finish' % nm)); continue
+                    n_eval += 1; distinct.add(('xzless', j, bool(shell), r.returncode))
+                    if os.path.exists(os.path.join(ld, 'CANARY')):
+                        viol.append(dict(why='xzless %r (SHELL %s): a command taken from the file name was executed' % (nm, shell))); os.remove(os.path.join(ld, 'CANARY'))
+                    elif r.stdout != b'contents of file %d\n' % j:
+                        viol.append(dict(why='xzless %r (SHELL %s) showed %r instead of the decompressed contents of that file' % (nm, shell, r.stdout[:100])))
         # xzdiff / xzcmp
         pairs = [(g, g, 0), (g, names[0], None), (g, b'missing-file', 2), (b'bad.xz', g, 2)]
         for a, b, want in pairs:
